@@ -42,7 +42,8 @@ def single_chain(draw, tier, nmax=None):
 
 @st.composite
 def jack_case(draw, tier):
-    return {'chain': draw(single_chain(tier))}
+    return {'chain': draw(single_chain(tier)), 'naive_via': draw(st.sampled_from(['arg', 'arg', 'dict', 'global'])),
+            'scribble': draw(st.booleans())}
 
 
 def jack_oracle(spec):
@@ -58,11 +59,31 @@ def jack_oracle(spec):
     loo = np.array([np.mean(np.delete(x, i)) for i in range(n)])
     bad = np.where(np.abs(j[1:] - loo) > 1e-12 * scale)[0]
     require(len(bad) == 0, 'jackknife sample %s is not the leave-one-out mean' % bad[:3].tolist(), j[1:][bad[:3]].tolist(), loo[bad[:3]].tolist())
-    o.gamma_method(S=0)
+    if spec.get('scribble'):
+        # the caller owns the returned array: writing to it must not change what a later export of the unchanged observable returns
+        keep = j.copy()
+        j[1:] -= j[0]
+        j[0] = 0.0
+        j_again = o.export_jackknife()
+        require(j_again is not j and np.array_equal(j_again, keep), 'a second export_jackknife of the unchanged observable differs after the '
+                'array returned by the first one was modified in place', float(np.max(np.abs(j_again - keep))))
+        j = keep
+    # the naive error: S = 0 requested by argument, by the per-ensemble dictionary or by the global default
+    via = spec.get('naive_via', 'arg')
+    if via == 'dict':
+        pe.Obs.S_dict[c['name'].split('|')[0]] = 0
+        o.gamma_method()
+        pe.Obs.S_dict = {}
+    elif via == 'global':
+        pe.Obs.S_global = 0
+        o.gamma_method()
+        pe.Obs.S_global = 2.0
+    else:
+        o.gamma_method(S=0)
     var = (n - 1) / n * np.sum((j[1:] - np.mean(j[1:])) ** 2)
     # rounding of the samples (~eps*scale each) enters the variance through 2*sum|j - jbar|
     tol = 1e-9 * max(var, o.dvalue ** 2) + 100 * np.finfo(float).eps * scale * float(np.sum(np.abs(j[1:] - np.mean(j[1:])))) + 1e-26 * scale ** 2
-    require(abs(var - o.dvalue ** 2) <= tol, 'jackknife variance differs from the squared naive error', var, o.dvalue ** 2)
+    require(abs(var - o.dvalue ** 2) <= tol, 'jackknife variance differs from the squared naive error (S=0 requested via %s)' % via, var, o.dvalue ** 2)
     back = pe.import_jackknife(j, c['name'], idl=[idl_arg(c)])
     rf = RefObs.from_samples([x], [c['name']], [c['idl']])
     # the import forms sum_j J_j - (N-1) J_i: rounding grows like N * eps relative to the sample magnitude
@@ -71,7 +92,7 @@ def jack_oracle(spec):
     j2 = back.export_jackknife()
     require(np.all(np.abs(j2 - j) <= 10 * rnd * scale), 'export -> import -> export is not a fixed point', float(np.max(np.abs(j2 - j))))
     k = gen.classify_idl(c['idl'])
-    return {'nt': k != 'contig', 'cls': ['idl:' + k, 'data:' + c['data']['kind'], 'n<=8' if n <= 8 else 'n>8']}
+    return {'nt': k != 'contig', 'cls': ['idl:' + k, 'data:' + c['data']['kind'], 'n<=8' if n <= 8 else 'n>8', 'S0_via:' + via]}
 
 
 @st.composite
@@ -103,7 +124,22 @@ def boot_case(draw, tier):
             table[i] = row
     if draw(st.booleans()) and ns > 1:
         table[-1] = list(table[0])       # repeated row
-    return {'chain': c, 'table': table, 'kind': kind}
+    return {'chain': c, 'table': table, 'kind': kind, 'layout': draw(st.sampled_from(['C', 'C', 'F', 'T', 'strided', 'list']))}
+
+
+def _table_arg(table, layout):
+    """the same table of random numbers in another memory layout / container"""
+    if layout == 'F':
+        return np.asfortranarray(table)
+    if layout == 'T':
+        return np.ascontiguousarray(table.T).T          # transposed view of a C-ordered array (as loadtxt(..., unpack=True).T gives)
+    if layout == 'strided':
+        big = np.zeros((table.shape[0], 2 * table.shape[1]), dtype=table.dtype)
+        big[:, ::2] = table
+        return big[:, ::2]
+    if layout == 'list':
+        return [[int(v) for v in row] for row in table]
+    return table
 
 
 def boot_oracle(spec):
@@ -115,7 +151,7 @@ def boot_oracle(spec):
     o = build_obs({'chains': [c], 'cov': []})
     table = np.array(spec['table'], dtype=int)
     ns = table.shape[0]
-    b = o.export_bootstrap(samples=ns, random_numbers=table)
+    b = o.export_bootstrap(samples=ns, random_numbers=_table_arg(table, spec.get('layout', 'C')))
     require(isinstance(b, np.ndarray) and b.shape == (ns + 1,), 'export_bootstrap must return samples+1 numbers', getattr(b, 'shape', None))
     require(abs(b[0] - np.mean(x)) <= 1e-13 * scale, 'entry 0 of the bootstrap export is not the central value')
     want = np.array([x[row].mean() for row in table])
@@ -124,7 +160,7 @@ def boot_oracle(spec):
             b[1:][bad[:3]].tolist(), want[bad[:3]].tolist())
     proj = np.vstack([np.bincount(r, minlength=n) for r in table]) / n
     rank = int(np.linalg.matrix_rank(proj))
-    labs = ['kind:' + spec['kind'], 'rank:' + ('full' if rank == n else 'deficient'), 'idl:' + gen.classify_idl(c['idl'])]
+    labs = ['kind:' + spec['kind'], 'rank:' + ('full' if rank == n else 'deficient'), 'idl:' + gen.classify_idl(c['idl']), 'table:' + spec.get('layout', 'C')]
     if ns < n:
         try:
             pe.import_bootstrap(b, c['name'], table)
